@@ -69,7 +69,7 @@ def run_one(sid, in_repo, tier):
 
 
 def table():
-    rows = ["| seeded change | property | what it breaks | needs | caught by (quick tier) | signatures |", "|---|---|---|---|---|---|"]
+    rows = ["| seeded change | property | what it breaks | needs | caught by (quick tier) | signatures | history |", "|---|---|---|---|---|---|---|"]
     for sid in sorted(os.listdir(S)):
         d = os.path.join(S, sid)
         if not os.path.exists(os.path.join(d, "meta.json")):
@@ -83,7 +83,7 @@ def table():
             caught = ", ".join("%s: %s" % (c, "**caught**" if v["caught"] else ("missed" if v["exit"] == 0 else "inconclusive")) for c, v in cs.items()) or r.get("error", "error")
             sigs = "; ".join(s for v in cs.values() for s in v["signatures"][:3])
         esc = lambda s: str(s).replace("|", "\\|").replace("\n", " ")
-        rows.append("| %s | %s | %s | %s | %s | %s |" % (sid, m["property"], esc(m.get("what_breaks", ""))[:220], esc(m.get("needs", ""))[:160], caught, esc(sigs)[:260]))
+        rows.append("| %s | %s | %s | %s | %s | %s | %s |" % (sid, m["property"], esc(m.get("what_breaks", ""))[:220], esc(m.get("needs", ""))[:160], caught, esc(sigs)[:260], esc(m.get("history", ""))))
     p = os.path.join(V, "DESIGN.md")
     s = open(p).read()
     a, b = "<!-- SEEDED-BEGIN -->", "<!-- SEEDED-END -->"
